@@ -5,6 +5,7 @@ from .. import lp, lpfacts, spec
 from ..absint import Interp, iter_effects, collect_acc
 from .c01 import check_scatter
 
+RULES_EXTRA = {'C03.R6': 'multipliers and cut-offs reach their criterion as given: the parser keeps (criterion, arguments[1:]) unchanged, so the documented defaults are the ones the criterion applies itself'}
 RULES = {
     'C03.R1': 'objective schema per criterion and arity: (linear form, link, loop range and order, defaults) equals the documented criterion table',
     'C03.R2': 'sense x sign: the problem sense and the sign handed to the solve give MAX / MIN as documented',
@@ -111,6 +112,10 @@ def run(rep, repo, tier):
                 check_criterion(rep, r, name, arity)
                 rep.count('specialisations')
     check_rank_lists(rep, repo)
+    for k_, v_ in RULES_EXTRA.items():
+        rep.rule(k_, v_)
+    from .c16 import check_helper
+    check_helper(rep, repo, repo.method('Options_parser', '_get_ordered_optimisations'), len(spec.CRITERIA), r1='C03.R6', r3='C03.R6', r6='C03.R6')
     for pc in (False, True):
         for stab in (False, True):
             for crit in ([lpfacts.crit_config('MINCOST', 2)], [lpfacts.crit_config('LOADSUMBAL')]):
